@@ -8,6 +8,8 @@
 //	helper deadline <mode> <ms> <log> log "start <pid> <unixnano>", then
 //	    block        sleep forever, signals have their default effect
 //	    trapexit     on SIGQUIT log "quit <unixnano>" and exit 3 after <ms>
+//	    trapexit0    the same, but the exit status is 0 (a graceful shutdown on the interrupt)
+//	    trapexitN    the same with the exit status N (1..255)
 //	    ignore       on SIGQUIT / SIGINT log the time and carry on (only SIGKILL ends it)
 //	    exitat       exit 0 after <ms>
 //	    exitabs      exit 0 at the absolute time <ms> (unix nanoseconds)
@@ -22,6 +24,7 @@ import (
 	"os/signal"
 	"path/filepath"
 	"strconv"
+	"strings"
 	"syscall"
 	"time"
 )
@@ -73,22 +76,32 @@ func main() {
 		ms, _ := strconv.Atoi(os.Args[3])
 		log := os.Args[4]
 		logLine(log, "start %d %d", os.Getpid(), time.Now().UnixNano())
+		if strings.HasPrefix(mode, "trapexit") {
+			mode = "trapexit"
+		}
 		switch mode {
 		case "block":
 			for {
 				time.Sleep(time.Hour)
 			}
 		case "trapexit":
+			// mode was "trapexit" or "trapexit<status>"
+			code := 3
+			if n, err := strconv.Atoi(strings.TrimPrefix(os.Args[2], "trapexit")); err == nil {
+				code = n
+			}
 			c := make(chan os.Signal, 4)
 			signal.Notify(c, syscall.SIGQUIT)
+			logLine(log, "ready %d", time.Now().UnixNano())
 			<-c
 			logLine(log, "quit %d", time.Now().UnixNano())
 			time.Sleep(time.Duration(ms) * time.Millisecond)
 			logLine(log, "exit %d", time.Now().UnixNano())
-			os.Exit(3)
+			os.Exit(code)
 		case "ignore":
 			c := make(chan os.Signal, 8)
 			signal.Notify(c, syscall.SIGQUIT, syscall.SIGINT, syscall.SIGTERM)
+			logLine(log, "ready %d", time.Now().UnixNano())
 			for s := range c {
 				name := "sig"
 				switch s {
